@@ -24,7 +24,8 @@ LICENCE_TEXT = "Permission is hereby granted.\n"
 
 
 def gen_tree(seed, kind):
-    """-> (root directory name, {relative path: str|bytes}).  kind: toml | toml-partial | dep5 | plain | subprojects-root | git"""
+    """-> (root directory name, {relative path: str|bytes}).  kind: toml | toml-partial | dep5 | plain | subprojects-root | git |
+    git-submodule (the files of the submodules come from gen_submodules)"""
     rng = random.Random("c14-tree:%s:%s" % (seed, kind))
     files = {}
     lic_used = ["MIT", "GPL-3.0-or-later", "Apache-2.0", "LicenseRef-custom"]
@@ -84,7 +85,7 @@ def gen_tree(seed, kind):
                 'version = 1\n\n[[annotations]]\npath = "**"\nprecedence = "closest"\n%s%s'
                 % ('SPDX-FileCopyrightText = "2010 Inner %s"\n' % d.replace("/", " ") if half in ("cpr", "both") else "",
                    'SPDX-License-Identifier = "%s"\n' % rng.choice(["MIT", "GPL-3.0-or-later"]) if half in ("lic", "both") else ""))
-    if kind in ("toml", "subprojects-root", "git"):
+    if kind in ("toml", "subprojects-root", "git", "git-submodule"):
         files["REUSE.toml"] = (
             'version = 1\n\n[[annotations]]\npath = "**/*.txt"\nprecedence = "%s"\n'
             'SPDX-FileCopyrightText = "2000 Root Toml"\nSPDX-License-Identifier = "CC0-1.0"\n\n'
@@ -106,6 +107,27 @@ def gen_tree(seed, kind):
         files.setdefault("docs/readme.txt", "text\n")
     root_name = "subprojects" if kind == "subprojects-root" else "proj"
     return root_name, files
+
+
+def gen_submodules(seed):
+    """-> [(path of the submodule relative to the root, how it is made: "gitfile" | "nested-repo", {relative path: content})]:
+    one to three Git submodules (top level, nested below a directory of the project, below another submodule's parent), each with
+    files that change the verdict when they are counted (no information, an own licence, an own LICENSES/ and REUSE.toml)."""
+    rng = random.Random("c14-submodules:%s" % seed)
+    places = rng.sample(["mod", "vendor/lib", "src/third_party", "lib/ext/deep", "docs/theme"], rng.randint(1, 3))
+    subs = []
+    for i, place in enumerate(places):
+        files = {"nolicence_%d.c" % i: "int x;\n",
+                 "own_%d.py" % i: "# SPDX-FileCopyrightText: 2015 Submodule Author %d\n# SPDX-License-Identifier: BSD-3-Clause\n" % i}
+        if rng.random() < 0.5:
+            files["LICENSES/BSD-3-Clause.txt"] = LICENCE_TEXT
+        if rng.random() < 0.5:
+            files["REUSE.toml"] = ('version = 1\n\n[[annotations]]\npath = "**"\nprecedence = "override"\n'
+                                   'SPDX-FileCopyrightText = "2016 Submodule Toml"\nSPDX-License-Identifier = "ISC"\n')
+        if rng.random() < 0.5:
+            files["deep/er/data_%d.txt" % i] = "text\n"
+        subs.append((place, rng.choice(["gitfile", "nested-repo"]), files))
+    return subs
 
 
 # --------------------------------------------------------------------------
